@@ -22,8 +22,8 @@ from mc import world
 ID = 'C20'
 LEVEL = 'exploration'
 
-MNEMONICS = ['ld', 'ldx', 'l', 'mov', 'mov.b', 'add', 'a2', 'x_1m']
-MACROS = ['mac', 'ldm', 'm.x']
+MNEMONICS = ['ld', 'ldx', 'l', 'mov', 'mov.b', 'add', 'a2', 'x_1m', 'Jmp']
+MACROS = ['mac', 'ldm', 'm.x', 'PUSH2']
 REGISTERS = ['a', 'x_1', 'sp', 'r1']
 PREDEFINED = ['KC', 'K_2', 'zn']
 COMPILER_DIRECTIVES = ['org', 'memzone', 'align']
@@ -65,7 +65,9 @@ def make_isa(mn, mac, regs, pre):
 def meta(tier):
     q = tier == 'quick'
     return {
-        'rule': 'vocabularies: every choice of 1..2 (thorough 3) mnemonics, <=1 (2) macros, <=2 (3) registers, <=1 (2) predefined names '
+        'rule': 'vocabularies: thorough: every choice of 1..3 mnemonics, <=2 macros, <=3 registers, <=2 predefined names; quick: two '
+                'categories varied at a time (mnemonics x macros with two register/predefined settings, registers x predefined with two '
+                'mnemonic/macro settings, single mnemonics x macro pairs) '
                 'from pools built to collide (ld/ldx/l, mov/mov.b, names containing digits and underscores) x {vscode, sublime}; '
                 'checks per generation: every file parses in its format (JSON, YAML, property list / XML, zip integrity), no '
                 '##PLACEHOLDER## survives in any file, each configured word is matched in full by the pattern of its own category '
@@ -118,7 +120,7 @@ def check_category(name, pattern, words, others, ci=True):
     if pattern is None:
         return [f'no pattern for category {name}'] if words else []
     for w in words:
-        forms = [w, w.upper()] if ci else [w]
+        forms = [w, w.upper(), w.lower()] if ci else [w]
         for f in forms:
             if not full_match(pattern, f):
                 probs.append(f'{name} pattern {pattern!r} does not classify configured word {f!r}')
@@ -294,14 +296,28 @@ def examine(isa, target, vocab, gen):
 def shard(acc, tier, idx, n):
     q = tier == 'quick'
     ctr = 0
-    for mn in subsets(MNEMONICS, 2 if q else 3, 1):
-        for mac in subsets(MACROS, 1 if q else 2):
-            for regs in subsets(REGISTERS, 2 if q else 3):
-                for pre in subsets(PREDEFINED, 1 if q else 2):
+    if q:
+        # quick tier: the generators fill each category pattern independently, so two categories are varied at a time
+        vocabs = [(mn, mac, regs, pre) for mn in subsets(MNEMONICS, 2, 1) for mac in subsets(MACROS, 1)
+                  for regs in ((), ('a', 'x_1')) for pre in ((), ('KC',))]
+        vocabs += [(mn, mac, regs, pre) for regs in subsets(REGISTERS, 2) for pre in subsets(PREDEFINED, 1)
+                   for mn in (('ld',), ('ld', 'mov.b')) for mac in ((), ('mac',))]
+        vocabs += [(mn, mac, (), ()) for mn in subsets(MNEMONICS, 1, 1) for mac in subsets(MACROS, 2)]
+    else:
+        vocabs = [(mn, mac, regs, pre) for mn in subsets(MNEMONICS, 3, 1) for mac in subsets(MACROS, 2)
+                  for regs in subsets(REGISTERS, 3) for pre in subsets(PREDEFINED, 2)]
+    seen_v = set()
+    if True:
+        if True:
+            if True:
+                for vocab in vocabs:
+                    if vocab in seen_v:
+                        continue
+                    seen_v.add(vocab)
+                    mn, mac, regs, pre = vocab
                     ctr += 1
                     if ctr % n != idx:
                         continue
-                    vocab = (mn, mac, regs, pre)
                     isa = make_isa(*vocab)
                     for target in ('vscode', 'sublime'):
                         probs = examine(isa, target, vocab, generate_inproc)
